@@ -976,3 +976,111 @@ Proof.
   repeat match goal with |- _ /\ _ => split end; try (vm_compute; reflexivity); eexists; eexists; vm_compute; reflexivity.
 Qed.
 End C07_translated_3.
+
+(* ---- the translation tie, continued (coq/TrViCol.v, coq/TrViMot.v): the column / offset helpers of vi.c -- vi_col2off, vi_off2col,
+   vi_nextcol (the machinery of | j k h l) and vi_nextoff (space, backspace).  They call lbuf_get and ren_off / ren_pos / ren_next of
+   ren.c; TrRenPos2.v (property C17) proves those equal to the byte-level model RenDefs.v on every line that takes the plain loop of
+   ren_position.  TrViCol.v part A proves that on a valid UTF-8 line that is not reordered the character-level column functions of
+   MotDefs.v (this property's model) ARE RenDefs' (C07_tr_columns_bridge), so the statements below are about MotDefs.
+   col_mem: the read-only tables of ren.c / uc.c, the static `bits` of ren_placeholder and the options xlim / xorder are in memory;
+   col_lines: every line valid UTF-8, not reordered (RenDefs.use_reorder = false), at most 2^28 bytes.  The memory afterwards is
+   some M with ren_frame m M: blocks appended (ren.c's arrays, freed, and address-taken locals), the static bits set, every other
+   block of m unchanged. *)
+From NV Require RenDefs TrRenPos TrRenPos2 TrViCol.
+Section C07_translated_4.
+Import CLite CLiteProps GenCFuncs TrLbufBase TrUc TrMot TrViMot.
+
+Theorem C07_tr_columns_bridge : forall dr o cs, List.Forall NV.UcSpec.scalar cs -> RenDefs.use_reorder o (NV.UcSpec.chars cs) = false ->
+  chop (NV.UcSpec.chars cs) = map NV.UcSpec.encode cs /\
+  (forall p, ren_off (map NV.UcSpec.encode cs) p = Z.of_nat (RenDefs.ren_off dr o (NV.UcSpec.chars cs) p)) /\
+  (forall off, (0 <= off)%Z -> ren_pos (map NV.UcSpec.encode cs) off = RenDefs.ren_pos dr o (NV.UcSpec.chars cs) off) /\
+  (forall p dir, ren_next (map NV.UcSpec.encode cs) p dir = RenDefs.ren_next dr o (NV.UcSpec.chars cs) p dir).
+Proof.
+  intros dr o cs Hcs U. split; [apply chop_chars; exact Hcs|]. split; [intro p; apply TrViCol.ren_off_bridge; assumption|].
+  split; [intros off H; apply TrViCol.ren_pos_bridge; assumption|intros p dir; apply TrViCol.ren_next_bridge; assumption].
+Qed.
+Print Assumptions C07_tr_columns_bridge.
+
+Theorem C07_tr_vi_col2off : forall o lb bln lbs lines m row col d fuel, lines_small lines -> TrViCol.col_lines o lines ->
+  lbuf_at m lb bln lbs lines -> TrViCol.col_mem o m ->
+  (maxlen lines < fuel)%nat -> (TrRenPos.nph < fuel)%nat -> (NV.TrUcTab.fuel_tabs <= fuel)%nat ->
+  exists M, callf cprog fuel (S (S (S (S (S (S (S (S d)))))))) F_vi_col2off [VPtr lb 0; VInt row; VInt col] m
+            = Ok (VInt (vi_col2off (map chop lines) row col), M) /\ TrRenPos.ren_frame m M.
+Proof. intros o lb bln lbs lines m row col d fuel Hsm Hcl. exact (TrViCol.tr_vi_col2off o lb bln lbs lines Hsm Hcl m row col d fuel). Qed.
+Print Assumptions C07_tr_vi_col2off.
+
+Theorem C07_tr_vi_off2col : forall o lb bln lbs lines m row off d fuel, lines_small lines -> TrViCol.col_lines o lines ->
+  lbuf_at m lb bln lbs lines -> TrViCol.col_mem o m -> (0 <= off)%Z ->
+  (maxlen lines < fuel)%nat -> (TrRenPos.nph < fuel)%nat -> (NV.TrUcTab.fuel_tabs <= fuel)%nat ->
+  exists M, callf cprog fuel (S (S (S (S (S (S (S (S d)))))))) F_vi_off2col [VPtr lb 0; VInt row; VInt off] m
+            = Ok (VInt (vi_off2col (map chop lines) row off), M) /\ TrRenPos.ren_frame m M.
+Proof. intros o lb bln lbs lines m row off d fuel Hsm Hcl. exact (TrViCol.tr_vi_off2col o lb bln lbs lines Hsm Hcl m row off d fuel). Qed.
+Print Assumptions C07_tr_vi_off2col.
+
+(* h / l: one column step; 0 and the model's new offset stored in *off, or -1 and nothing stored *)
+Theorem C07_tr_vi_nextcol : forall o lb bln lbs lines m br bo r off dir d fuel, lines_small lines -> TrViCol.col_lines o lines ->
+  lbuf_at m lb bln lbs lines -> TrViCol.col_mem o m ->
+  cell_at m br r -> cell_at m bo off -> i32 r -> i32 off -> (0 <= off)%Z ->
+  ~ In TrRenPos.G_bits (lb :: bln :: lbs) -> bo <> TrRenPos.G_bits ->
+  (maxlen lines < fuel)%nat -> (TrRenPos.nph < fuel)%nat -> (NV.TrUcTab.fuel_tabs <= fuel)%nat ->
+  exists M, TrRenPos.ren_frame m M /\
+    callf cprog fuel (S (S (S (S (S (S (S (S (S d))))))))) F_vi_nextcol [VPtr lb 0; VInt dir; VPtr br 0; VPtr bo 0] m
+    = match vi_nextcol (map chop lines) dir (r, off) with
+      | Some (false, (_, o')) => Ok (VInt 0, upd M bo [VInt o'])
+      | _ => Ok (VInt (-1), M)
+      end.
+Proof. intros o lb bln lbs lines m br bo r off dir d fuel Hsm Hcl. exact (TrViCol.tr_vi_nextcol o lb bln lbs lines Hsm Hcl m br bo r off dir d fuel). Qed.
+Print Assumptions C07_tr_vi_nextcol.
+
+(* space / backspace: one character step inside the line *)
+Theorem C07_tr_vi_nextoff : forall m lb bln lbs lines br bo r o dir d fuel, lbuf_at m lb bln lbs lines -> lines_small lines ->
+  (maxlen lines < fuel)%nat -> cell_at m br r -> cell_at m bo o -> i32 r -> i32 o -> i32 (o + dir) ->
+  callf cprog fuel (S (S (S d))) F_vi_nextoff [VPtr lb 0; VInt dir; VPtr br 0; VPtr bo 0] m
+  = match vi_nextoff (map chop lines) dir (r, o) with
+    | Some (false, (_, o')) => Ok (VInt 0, upd m bo [VInt o'])
+    | _ => Ok (VInt 1, m)
+    end.
+Proof. exact tr_vi_nextoff. Qed.
+Print Assumptions C07_tr_vi_nextoff.
+
+(* they run: the line "a<TAB>b中c\n" (a tab, a wide character) with the option xorder = 0 (no reordering), xlim = 256: the interpreter on
+   the translated vi_col2off / vi_off2col / vi_nextcol / vi_nextoff (with the whole translated ren.c stack below them: ren_off, ren_pos,
+   ren_next, ren_position, ren_cwid, ren_placeholder, uc_wid ...) returns what the model returns: column 8 is "b" (offset 2), column 10 the
+   second cell of the wide character (offset 3), character 4 starts in column 11, l from the tab goes to offset 2, h from offset 0 fails,
+   space from offset 5 (the last character before the line break is offset 4 ... 5 is "\n") is refused at the end of the line *)
+Example C07_tr_columns_run :
+  let lines := [[97; 9; 98; 228; 184; 173; 99; 10]]%N in
+  let o := {| RenDefs.xorder := 0; RenDefs.xlim := 256 |} in
+  let G := ex_G in
+  let st : block := repeat (VInt 0) 64 ++ [VPtr (G + 1) 0; VInt 0; VInt 1; VInt 4] ++ repeat (VInt 0) 7 in
+  let mem r off := upd cglobals G_xorder [VInt 0] ++ [st; [VPtr (G + 2) 0; VInt 0; VInt 0; VInt 0]; cstr_block (zb (nthl lines 0)); [VInt r]; [VInt off]] in
+  let b := map chop lines in
+  TrViCol.col_lines o lines /\ lines_small lines /\
+  (forall r off, lbuf_at (mem r off) G (G + 1) [G + 2]%nat lines /\ cell_at (mem r off) G_xlim 256 /\ cell_at (mem r off) G_xorder 0 /\
+                 TrRenPos.bits_ok (mem r off)) /\
+  NV.TrRen2.retv (callf cprog 400 20 F_vi_col2off [VPtr G 0; VInt 0; VInt 8] (mem 0 0)) = Ok (VInt (vi_col2off b 0 8)) /\ vi_col2off b 0 8 = 2%Z /\
+  NV.TrRen2.retv (callf cprog 400 20 F_vi_col2off [VPtr G 0; VInt 0; VInt 10] (mem 0 0)) = Ok (VInt (vi_col2off b 0 10)) /\ vi_col2off b 0 10 = 3%Z /\
+  NV.TrRen2.retv (callf cprog 400 20 F_vi_off2col [VPtr G 0; VInt 0; VInt 4] (mem 0 0)) = Ok (VInt (vi_off2col b 0 4)) /\ vi_off2col b 0 4 = 11%Z /\
+  NV.TrRen2.retv (callf cprog 400 20 F_vi_nextcol [VPtr G 0; VInt 1; VPtr (G + 3) 0; VPtr (G + 4) 0] (mem 0 1)) = Ok (VInt 0) /\
+  vi_nextcol b 1 (0, 1)%Z = Some (false, (0, 2)%Z) /\
+  NV.TrRen2.retv (callf cprog 400 20 F_vi_nextcol [VPtr G 0; VInt (-1); VPtr (G + 3) 0; VPtr (G + 4) 0] (mem 0 0)) = Ok (VInt (-1)) /\
+  vi_nextcol b (-1) (0, 0)%Z = Some (true, (0, 0)%Z) /\
+  callf cprog 400 20 F_vi_nextoff [VPtr G 0; VInt 1; VPtr (G + 3) 0; VPtr (G + 4) 0] (mem 0 4) = Ok (VInt 0, mem 0 5) /\
+  vi_nextoff b 1 (0, 4)%Z = Some (false, (0, 5)%Z) /\
+  callf cprog 400 20 F_vi_nextoff [VPtr G 0; VInt 1; VPtr (G + 3) 0; VPtr (G + 4) 0] (mem 0 5) = Ok (VInt 1, mem 0 5) /\
+  vi_nextoff b 1 (0, 5)%Z = Some (true, (0, 5)%Z).
+Proof.
+  cbv zeta. split.
+  { repeat constructor; [exists [97; 9; 98; 20013; 99; 10]%N; split; [repeat constructor; cbv; intuition discriminate|reflexivity]|cbn; lia]. }
+  split; [split; [cbn; lia|repeat constructor; cbn; lia]|].
+  split.
+  { intros r off. split; [|split; [reflexivity|split; [reflexivity|left; reflexivity]]]. constructor.
+    - eexists. repeat split; reflexivity.
+    - eexists. split; [reflexivity|]. split; [cbn; lia|]. intros [|i] Hi; [reflexivity|cbn in Hi; lia].
+    - reflexivity.
+    - intros [|i] Hi; [reflexivity|cbn in Hi; lia].
+    - repeat (apply NoDup_cons; [cbn [In]; intros H; repeat (destruct H as [H|H]; [lia|]); exact H|]). apply NoDup_nil.
+    - repeat (apply Forall_cons; [repeat (apply Forall_cons; [cbv; split; reflexivity|]); apply Forall_nil|]). apply Forall_nil. }
+  repeat match goal with |- _ /\ _ => split end; vm_compute; reflexivity.
+Qed.
+End C07_translated_4.
